@@ -50,6 +50,10 @@ CLAIMED = {
    text="Bounded model checking (z3) of the c14n package's own code, unit by unit: encodeString on EVERY byte string of length 0..3 (4 thorough): rejected iff not well-formed UTF-8 (RFC 3629), otherwise exactly the minimal-escape form of README rule 8; Integer on every int64; objects with up to three members (symbolic one-byte keys, values integer/null/bool/string): sorted, null members dropped, separators right, independent of input member order; arrays keep nulls and order; the float post-processing on symbolic formatter output keeps digits/exponent and yields README rule 7; the token layer on every decoder token stream of up to 4 (5) tokens: accepted iff exactly one complete value, never a panic.",
    note="encoding/json.Decoder and strconv.AppendFloat are contract stubs in symbolic runs (native replay uses the real ones on rendered text / the denoted float). Outside: nesting deeper than the token bound, long strings. Defects found and fixed: be45fb5, d74cb55, b5a11db, 1c33f8c.",
    ref="DESIGN.md 5 (C07)"),
+ "C14": dict(
+   text="Panic freedom on bounded skeletons, decided by symbolic execution with z3 path feasibility: invoice, payment and envelope skeletons whose optional pointers are nil or not and whose currency codes range over {absent, defined, other, undefined} (by choice) with symbolic numbers are driven through bill.calculate, Payment.calculate, DocumentRef.Calculate, Envelope.Verify/Header.Contains and the c14n token layer; no feasible path may end in a Go run-time panic (nil dereference, index out of range, failed assertion, division by zero). Every panic found is replayed against the natively compiled code before it is reported.",
+   note="Outside: arbitrary bytes through encoding/json / YAML, hangs, the CLI process, error keys and JSON serialisation of errors (reflection, I/O). Defects found and fixed: ececb16 (empty signature / nil header), 30b8846 (undefined currency), 1c33f8c (c14n empty input), 9131962.",
+   ref="DESIGN.md 5 (C14)"),
 }
 
 NA = {
